@@ -11,6 +11,7 @@ CONSTANTS
   FixInvalidCorrected = FALSE
   FixValidToInvalid = FALSE
   AvoidWindows = TRUE
+  ProcRewritesName = FALSE
 INVARIANTS TypeOK NoDupStore ViewsReadable Converged
 PROPERTIES UnknownIgnored
 CHECK_DEADLOCK FALSE
